@@ -122,9 +122,14 @@ def run(rep, tier, seed, replay=None):
             vs = [v for v in vs if len(v.case().script) == 1 and v.case().script[0] != "X" and not v.case().opts
                   and all(x is None or len(x) <= 1400 for x in v.case().script[0])]
             inner = []
-            for bi, v in enumerate(vs[: (2 if tier == "quick" else 10)]):
+            # the exchanges with the most deliveries first (split / multi-part replies: a server that stops between two
+            # fragments must cost one read timeout per attempt, like one that stops anywhere else), then an ordinary one
+            vs.sort(key=lambda v: -len(v.case().script[0]))
+            picked = vs[: (2 if tier == "quick" else 8)] + vs[-1:]
+            for bi, v in enumerate(picked):
                 n = len(v.case().script[0])
-                for cut in sorted({0, n // 2, max(n - 1, 0), n}):
+                cuts = set(range(n + 1)) if n <= 7 else {0, 1, n // 3, n // 2, 2 * n // 3, n - 2, n - 1, n}
+                for cut in sorted(cuts):
                     for r in (0, 1):
                         c = v.case()
                         c.script[0] = c.script[0][:cut]
